@@ -28,6 +28,8 @@
 
 namespace symt {
 
+inline bool echo_inputs() { static int e = getenv("VERIF_ECHO") ? 1 : 0; return e != 0; }
+
 enum Op : uint8_t {
   VAR, LIT, LITI, KONST,
   ADD, SUB, MUL, DIV, NEG,
@@ -521,8 +523,10 @@ void run_concrete_int(FILE* fp, UnitRec const& u, FN const& fn, const char* tyna
   std::vector<T> in(u.nin), out(u.nout);
   for (int k = 0; k < count; ++k) {
     int cls = k % 4 < 2 ? 0 : (k % 4 == 2 ? 1 : 2);
+    if (getenv("VERIF_INT_SMALL")) cls = 0;          // C20 replay: stay inside the colour-depth / no-overflow domain
     for (int i = 0; i < u.nin; ++i) in[i] = gen_int<T>(r, cls);
     for (int j = 0; j < u.nout; ++j) out[j] = T(0);
+    if (echo_inputs()) { fprintf(stderr, "ECHO %s %s", u.name.c_str(), tyname); for (int i = 0; i < u.nin; ++i) put_bits<T>(stderr, in[i]); fprintf(stderr, "\n"); fflush(stderr); }
     fn(in.data(), out.data());
     fprintf(fp, "R %s %s", u.name.c_str(), tyname);
     for (int i = 0; i < u.nin; ++i) put_bits<T>(fp, in[i]);
@@ -542,6 +546,7 @@ void run_concrete(FILE* fp, UnitRec const& u, FN const& fn, const char* tyname, 
     int cls = k % 8 < 3 ? 0 : (k % 8 < 6 ? 1 : (k % 8 == 6 ? 2 : 3));
     for (int i = 0; i < u.nin; ++i) in[i] = gen_value<T>(r, cls);
     for (int j = 0; j < u.nout; ++j) out[j] = T(0);
+    if (echo_inputs()) { fprintf(stderr, "ECHO %s %s", u.name.c_str(), tyname); for (int i = 0; i < u.nin; ++i) put_bits<T>(stderr, in[i]); fprintf(stderr, "\n"); fflush(stderr); }
     fn(in.data(), out.data());
     fprintf(fp, "R %s %s", u.name.c_str(), tyname);
     for (int i = 0; i < u.nin; ++i) put_bits<T>(fp, in[i]);
@@ -575,6 +580,7 @@ template<class T, class FN> void run_prop(FILE* fp, PropRec const& p, FN const& 
     for (int i = 0; i < p.nin; ++i) in[i] = (k % 7 == 6) ? (T)((int)(r.next() % 7) - 3) : (T)(r.unit() * 4.0 - 2.0);
     if (k % 4 == 3 && p.nin >= 2) { int h = p.nin / 2; T sc = (k % 8 == 3) ? (T)-1 : ((k % 16 == 7) ? (T)1 : (T)(-(r.unit() * 2.0 + 0.25)));
       for (int i = 0; i < h; ++i) in[h + i] = sc * in[i]; }
+    if (echo_inputs()) { fprintf(stderr, "ECHO %s %s", p.name.c_str(), ty); for (int i = 0; i < p.nin; ++i) fprintf(stderr, " %.17g", (double)in[i]); fprintf(stderr, "\n"); fflush(stderr); }
     T res = fn(in.data());
     if (res < T(0)) continue;                     // outside the documented domain
     ++evals;
